@@ -23,14 +23,14 @@ FAMILIES = {
     'onecomp': dict(
         path=lambda: os.path.join(LIB, 'pk_one_comp.xml'),
         comp='central', amount='drug_amount',
-        outs={0: None, 1: ['central.drug_concentration', 'central.drug_amount'], 2: ['central.drug_concentration']},
+        outs={0: None, 1: ['central.drug_concentration', 'central.drug_amount'], 2: ['central.drug_concentration'], 3: ['central.drug_amount', 'dose.drug_amount']},
         pren=('central.size', 'V'), oren=('central.drug_amount', 'A'),
         values={'central.drug_amount': 1.7, 'central.size': 1.3, 'global.elimination_rate': 0.6,
                 'dose.drug_amount': 0.4, 'dose.absorption_rate': 0.9}),
     'chain': dict(
         path=lambda: _chain_path(),
         comp='global', amount='xb',
-        outs={0: None, 1: ['global.xb', 'global.yq'], 2: ['global.yq']},
+        outs={0: None, 1: ['global.xb', 'global.yq'], 2: ['global.yq'], 3: ['global.xb', 'dose.drug_amount']},
         pren=('global.ka', 'K'), oren=('global.xb', 'B'),
         values={'global.xa': 1.2, 'global.xb': 0.7, 'global.xc': 0.3, 'global.ka': 0.45, 'global.kb': 0.8,
                 'dose.drug_amount': 0.5, 'dose.absorption_rate': 1.1}),
